@@ -10,8 +10,11 @@ Reading of the property used here (see NOTES/C15.md):
   packet diagrams by absolute octet offsets (`RtcModel/C15Spec.lean`, independent of the model of the stack's
   parser) read every serialised packet as the packet that was sent — plus the three-way correspondence check
   (rustrtc / this model / webrtc-rs `rtp`+`rtcp`);
-* what the marshaller does to values that do not fit the wire is stated exactly: `rtp_marshal_ok_iff`,
-  `rtcp_marshal_ok_iff` (errors), `rtcp_marshal_canonical` (the three lossy fields).
+* what the marshaller does to values that do not fit the wire is stated exactly: errors are characterised by the
+  lemmas `marshalPacket_ok_iff` / `marshalOne_ok_iff` (definitional for the model — their content is the
+  correspondence — hence lemmas, not property theorems), lossy fields by `rtcp_marshal_canonical`;
+* known defects are stated as witnesses: `rtp_marshal_into_masks_witness` (the unvalidated fast path),
+  `is_rtcp_rtp_iff` (RFC 5761 payload-type collision).
 -/
 import RtcModel.Lemmas.C15Rtp
 import RtcModel.Lemmas.C15Ext
@@ -20,6 +23,7 @@ import RtcModel.Lemmas.C15NackBuf
 import RtcModel.Lemmas.C15Utf8
 import RtcModel.Lemmas.C15Apt
 import RtcModel.Lemmas.C15Spec
+import RtcModel.Lemmas.C15ParseDir
 import RtcModel.Lemmas.C15RtcpStable
 import RtcModel.Lemmas.C15RtxFlow
 
@@ -31,7 +35,8 @@ open RtcModel.C15 RtcModel.Generated
 /-- Every numeric constant of `src/rtp.rs`, `src/rtx.rs` and the NACK helpers that the models use is
 regenerated from the source on each run; this single obligation pins the values the proofs below rely on
 (RFC 3550 version and header size, CSRC / payload-type / count masks, IANA packet types and feedback
-formats, RFC 8285 profiles and the id-15 stop, REMB and NACK field widths, the 24-bit loss clamp, the BYE cut,
+formats, RFC 8285 profiles and the id-15 stop, REMB and NACK field widths, the 24-bit loss clamp and wire mask,
+the 24-bit TWCC reference-time mask (the models write `% 16777216`), the BYE cut,
 cooldown and NACK-window constants). A changed constant makes it — and `Lemmas/C15Consts.lean` — stop
 type-checking. -/
 theorem const_values :
@@ -43,7 +48,8 @@ theorem const_values :
     c15RtcpCountMask = 31 ∧ c15RtcpMaxCount = 31 ∧ c15LossClampBits = 23 ∧
     c15RembMantissaMax = 2 ^ 18 - 1 ∧ c15RembExpMask = 63 ∧ c15RembMaxSsrcs = 255 ∧ c15NackBlpSpan = 16 ∧ c15BlpBits = 16 ∧
     c15ByeMaxReason = 255 ∧ c15CooldownMs = 25 ∧ c15RecentFactor = 2 ∧ c15MaxReceiverNackGap = 128 ∧ c15PendingFactor = 2 ∧
-    c15GapHalf = 2 ^ 15 ∧ c15IsRtcpLo = 192 ∧ c15IsRtcpHi = 208 ∧ c15RtxPtLo = 96 ∧ c15RtxPtHi = 127 := by decide
+    c15GapHalf = 2 ^ 15 ∧ c15IsRtcpLo = 192 ∧ c15IsRtcpHi = 208 ∧ c15RtxPtLo = 96 ∧ c15RtxPtHi = 127 ∧
+    c15TwccRefMask + 1 = 2 ^ 24 ∧ c15LossWireMask + 1 = 2 ^ 24 := by decide
 
 /-! ### RTP -/
 
@@ -135,22 +141,26 @@ example : parsePacket [0xA0, 0x60, 0, 1, 0, 0, 0, 2, 0, 0, 0, 3, 0x55, 2, 2] =
     marshalPacket ⟨Header.new 96 1 2 3, [0x55], 2⟩ = .ok [0xA0, 0x60, 0, 1, 0, 0, 0, 2, 0, 0, 0, 3, 0x55, 2, 2] := by
   constructor <;> rfl
 
-/-- **rtp_marshal_ok_iff**: `marshal` succeeds EXACTLY on the headers the wire can carry — 7-bit payload type,
-at most 15 CSRCs, extension 32-bit aligned and at most 65535 words; everything else is an error. (The payload
-type and the extension length used to be masked / truncated silently; two `fix:` commits made them errors.) -/
-theorem rtp_marshal_ok_iff (p : Packet) : (∃ bs, marshalPacket p = .ok bs) ↔ p.hdr.WF := by
-  rw [← validate_ok_iff]
-  unfold marshalPacket
-  cases hv : p.hdr.validate with
-  | error e => exact ⟨(fun ⟨_, h⟩ => by cases h), fun h => by cases h⟩
-  | ok u => exact ⟨fun _ => rfl, fun _ => ⟨_, rfl⟩⟩
-
 /-- **rfc_layout_rtp** (conformance, RFC 3550 §5.1 / §5.3.1): an INDEPENDENT reader that indexes the datagram by
 the octet offsets of the RFC's packet diagram (`Rfc.readRtp`: V/P/X/CC, M/PT, sequence number @2, timestamp @4,
 SSRC @8, CSRCs @12, extension header and data, payload, padding count in the last octet) reads every packet the
 stack serialises as the packet that was sent. -/
 theorem rfc_layout_rtp (p : Packet) (bs : Bytes) (h : marshalPacket p = .ok bs) : Rfc.readRtp bs = some p :=
-  Rfc.rfc_rtp p ((rtp_marshal_ok_iff p).mp ⟨bs, h⟩) bs h
+  Rfc.rfc_rtp p ((marshalPacket_ok_iff p).mp ⟨bs, h⟩) bs h
+
+/-- **rtp_marshal_into_wellformed** — the part of the relay fast path `RtpPacket::marshal_into` that holds: on every
+header the wire can carry (`Header.WF`, in particular on every parsed packet) it writes exactly the bytes `marshal`
+returns, so all theorems about `marshal` apply to it. -/
+theorem rtp_marshal_into_wellformed (p : Packet) (w : p.hdr.WF) : marshalPacket p = .ok (marshalInto p) := by
+  simp only [marshalPacket, validate_ok_of_wf w, marshalInto]
+
+/-- **rtp_marshal_into_masks_witness** (known finding `codec:rtp:marshal_into-masks:*`): outside `Header.WF` the fast
+path does NOT fail like `marshal` does — it emits a packet that parses to something else. Witness: payload type
+200 goes out as payload type 72. -/
+theorem rtp_marshal_into_masks_witness :
+    ∃ p q : Packet, (∀ bs, marshalPacket p ≠ .ok bs) ∧ parsePacket (marshalInto p) = .ok q ∧ q.hdr.pt ≠ p.hdr.pt :=
+  ⟨⟨Header.new 200 1 2 3, [0x55], 0⟩, ⟨Header.new 72 1 2 3, [0x55], 0⟩,
+    (by intro bs h; cases h), (by rfl), (by decide)⟩
 
 /-! ### RTX (RFC 4588) -/
 
@@ -165,26 +175,43 @@ theorem rtx_unwrap_wrap (p : Packet) (rtxSsrc : UInt32) (rtxPt : UInt8) (rtxSeq 
 
 /-- **rtx_production_restore** — the clause "unwrapping restores sequence number, timestamp, marker and payload"
 on the PRODUCTION path: a stored packet that the NACK responder wraps (`wrap_rtx_packet` with the negotiated RTX
-SSRC / payload type and any RTX sequence number) and that the receiver passes to `maybe_unwrap_rtx` — which picks
-the primary payload type from the negotiated `apt` map and the primary SSRC from the latched SSRC — comes out with
-the original sequence number, timestamp, marker, SSRC, payload type and payload. -/
-theorem rtx_production_restore (orig : Packet) (rtxSsrc : UInt32) (rtxPt : UInt8) (rtxSeq : UInt16)
-    (apt : List (UInt8 × UInt8)) (negotiated : Option UInt32)
-    (hapt : aptLookup apt rtxPt = some orig.hdr.pt) (hlatched : orig.hdr.ssrc ≠ 0) :
-    maybeUnwrap apt negotiated orig.hdr.ssrc (wrapRtx orig rtxSsrc rtxPt rtxSeq) =
-      some { hdr := { Header.new orig.hdr.pt orig.hdr.seq orig.hdr.ts orig.hdr.ssrc with marker := orig.hdr.marker },
+SSRC / payload type and any RTX sequence number) and that the receiver passes to `maybe_unwrap_rtx` comes out with
+the original sequence number, timestamp, marker and payload; the payload type is the one the negotiated `apt` map
+associates with the RTX payload type and the SSRC is the receiver's latched primary SSRC, WHATEVER that is (the
+original's SSRC only if the latch holds it — `rtx_loop_restore`). -/
+theorem rtx_production_restore (orig : Packet) (rtxSsrc : UInt32) (rtxPt primaryPt : UInt8) (rtxSeq : UInt16)
+    (apt : List (UInt8 × UInt8)) (negotiated : Option UInt32) (latched : UInt32)
+    (hapt : aptLookup apt rtxPt = some primaryPt) (hlatched : latched ≠ 0) :
+    maybeUnwrap apt negotiated latched (wrapRtx orig rtxSsrc rtxPt rtxSeq) =
+      some { hdr := { Header.new primaryPt orig.hdr.seq orig.hdr.ts latched with marker := orig.hdr.marker },
              payload := orig.payload, padLen := 0 } := by
   have h1 : (wrapRtx orig rtxSsrc rtxPt rtxSeq).hdr.pt = rtxPt := rfl
   simp only [maybeUnwrap, h1, hapt, Option.isNone_some, Bool.false_and, Bool.false_eq_true, if_false, hlatched]
-  exact rtx_unwrap_wrap orig rtxSsrc rtxPt rtxSeq
+  simp [unwrapRtx, wrapRtx, be16, Header.new]
 
-/-- a primary media packet (payload type not an RTX type, not on the RTX SSRC) passes through unchanged, and
-a packet on the RTX SSRC whose payload type is not an RTX type is dropped, never guessed -/
-theorem rtx_rx_passthrough (apt : List (UInt8 × UInt8)) (negotiated : Option UInt32) (ssrc : UInt32) (p : Packet)
-    (hpt : aptLookup apt p.hdr.pt = none) :
-    maybeUnwrap apt negotiated ssrc p = if negotiated = some p.hdr.ssrc then none else some p := by
-  simp only [maybeUnwrap, hpt, Option.isNone_none, Bool.true_and]
-  by_cases h : negotiated = some p.hdr.ssrc <;> simp [h]
+/-- **rtx_loop_restore** — the receive loop end to end: once a primary media packet `first` (payload type not an RTX
+type, not on the RTX SSRC) has gone through the loop — which latches its SSRC — a retransmission of ANY packet
+`orig` of that stream, wrapped by the sender with any RTX SSRC / sequence number and an RTX payload type the `apt`
+map associates with `orig`'s payload type, is delivered as `orig`: same sequence number, timestamp, marker, SSRC,
+payload type and payload. No assumption on what the receiver had latched before. -/
+theorem rtx_loop_restore (st : RxState) (first orig : Packet) (rtxSsrc : UInt32) (rtxPt : UInt8) (rtxSeq : UInt16)
+    (hfirst : aptLookup st.apt first.hdr.pt = none) (hnot : st.rtxSsrc ≠ some first.hdr.ssrc)
+    (hsame : orig.hdr.ssrc = first.hdr.ssrc) (hnz : first.hdr.ssrc ≠ 0)
+    (hapt : aptLookup st.apt rtxPt = some orig.hdr.pt) :
+    (st.step first).2 = some first ∧
+    ((st.step first).1.step (wrapRtx orig rtxSsrc rtxPt rtxSeq)).2 =
+      some { hdr := { Header.new orig.hdr.pt orig.hdr.seq orig.hdr.ts orig.hdr.ssrc with marker := orig.hdr.marker },
+             payload := orig.payload, padLen := 0 } := by
+  have hpass : maybeUnwrap st.apt st.rtxSsrc st.ssrc first = some first := by
+    simp only [maybeUnwrap, hfirst, Option.isNone_none, Bool.true_and]
+    have : (st.rtxSsrc == some first.hdr.ssrc) = false := by simpa using hnot
+    simp [this]
+  have h1 : st.step first = ({ st with ssrc := first.hdr.ssrc }, some first) := by
+    simp only [RxState.step, hpass]
+  rw [h1]
+  refine ⟨rfl, ?_⟩
+  simp only [RxState.step]
+  rw [rtx_production_restore orig rtxSsrc rtxPt orig.hdr.pt rtxSeq st.apt st.rtxSsrc first.hdr.ssrc hapt hnz, hsame]
 
 /-- **rtx_alloc_spec**: `allocate_rtx_payload_type` returns the smallest dynamic payload type 96..127
 that is not in use, and `None` only when all 32 are taken. -/
@@ -250,15 +277,6 @@ theorem rtx_append_read_back (s : Section) (primary rtx : Fin 256) (clock : Nat)
       split <;> simp [hc, hm]
     · split <;> simp [hc]
 
-/-- `rtx_pt_for_primary` can only answer with a payload type that the map associates with the primary one
-(which one, if several, is the `HashMap`'s choice): the candidates are exactly the associated ones -/
-theorem rtx_candidates_spec (m : List (UInt8 × UInt8)) (primary r : UInt8) :
-    r ∈ rtxCandidates m primary ↔ (r, primary) ∈ m := by
-  simp only [rtxCandidates, List.mem_map, List.mem_filter, beq_iff_eq]
-  constructor
-  · rintro ⟨⟨a, b⟩, ⟨hm, hb⟩, ha⟩; simp only at hb ha; subst hb; subst ha; exact hm
-  · intro h; exact ⟨(r, primary), ⟨h, rfl⟩, rfl⟩
-
 /-- every RTCP packet this stack serialises is classified as RTCP by `is_rtcp` (the demultiplexer's test) -/
 theorem is_rtcp_own_output (p : Rtcp) (bs : Bytes) (h : marshalOne p = .ok bs) : isRtcp bs = true := by
   have hw : ∀ fmt pt body, 192 ≤ pt → pt ≤ 208 → isRtcp (writeRtcp fmt pt body) = true := by
@@ -304,25 +322,24 @@ theorem is_rtcp_own_output (p : Rtcp) (bs : Bytes) (h : marshalOne p = .ok bs) :
     · cases h
     · exact he _ _ _ (by rw [c15RtcpPsfb_val]; omega) (by rw [c15RtcpPsfb_val]; omega) h
   | twcc s m b c r f pl =>
-    simp only [marshalOne] at h; split at h
+    simp only [marshalOne] at h
+    unfold twccEmit at h
+    split at h
+    · injection h with h; subst h
+      have h205 := hw c15FmtTwcc c15RtcpRtpfb
+      simp only [twccWire]
+      split
+      · exact h205 _ (by rw [c15RtcpRtpfb_val]; omega) (by rw [c15RtcpRtpfb_val]; omega)
+      · have := h205 (twccPadded (twccBody s m b c r f pl)) (by rw [c15RtcpRtpfb_val]; omega) (by rw [c15RtcpRtpfb_val]; omega)
+        simp only [writeRtcp] at this ⊢
+        simpa [isRtcp] using this
     · cases h
-    · unfold twccEmit at h
-      split at h
-      · injection h with h; subst h
-        have h205 := hw c15FmtTwcc c15RtcpRtpfb
-        simp only [twccWire]
-        split
-        · exact h205 _ (by rw [c15RtcpRtpfb_val]; omega) (by rw [c15RtcpRtpfb_val]; omega)
-        · have := h205 (twccPadded (twccBody s m b c r f pl)) (by rw [c15RtcpRtpfb_val]; omega) (by rw [c15RtcpRtpfb_val]; omega)
-          simp only [writeRtcp] at this ⊢
-          simpa [isRtcp] using this
-      · cases h
 
 /-- the converse the demultiplexer relies on does NOT hold for every RTP packet this stack can serialise: with the
 marker bit set, payload types 64..80 put 192..208 into the second octet (the RFC 5761 §4 collision). Exactly those: -/
 theorem is_rtcp_rtp_iff (p : Packet) (bs : Bytes) (h : marshalPacket p = .ok bs) :
     isRtcp bs = true ↔ (p.hdr.marker = true ∧ 64 ≤ p.hdr.pt.toNat ∧ p.hdr.pt.toNat ≤ 80) := by
-  have w := (rtp_marshal_ok_iff p).mp ⟨bs, h⟩
+  have w := (marshalPacket_ok_iff p).mp ⟨bs, h⟩
   have hpt := w.pt
   simp only [marshalPacket, validate_ok_of_wf w, Except.ok.injEq] at h
   subst h
@@ -486,12 +503,14 @@ example : packNack [65535, 0, 1, 65534] = [(0, 1), (65534, 1)] ∧
 /-! ### RTCP -/
 
 /-- **rtcp_marshal_canonical** — the full-strength inverse law: for EVERY compound packet the marshaller accepts —
-the only assumption is what the Rust types guarantee (`Dom`: text is valid UTF-8, the REMB bitrate is a `u64`) —
+the only assumption is what the Rust types guarantee (`Dom`: SDES text and BYE reason are valid UTF-8, the REMB
+bitrate is a `u64`) —
 parsing the bytes succeeds, yields the same number of packets of the same types, and each packet is the explicit
 canonical form `canon p`: identical except for the three fields the wire formats make lossy (loss count saturated
-at 24-bit signed, REMB bitrate rounded to 18 significant bits, NACK list in ascending wire order) and a BYE reason
-cut to whole characters within 255 bytes. No size bounds: a body that does not fit the 16-bit length field is an
-error of the marshaller (`rtcp_marshal_ok_iff`), not a hypothesis. -/
+at 24-bit signed, REMB bitrate rounded to 18 significant bits, NACK list in ascending wire order), a BYE reason
+longer than 255 bytes (cut to its longest prefix of whole characters that fits — `bye_reason_cut`; no `lossy`
+involved any more) and a TWCC reference time beyond 24 bits (a wrapping counter: reduced modulo 2^24). No size bounds: a body that does not fit the 16-bit length field is an
+error of the marshaller (lemma `marshalOne_ok_iff`), not a hypothesis. -/
 theorem rtcp_marshal_canonical (ps : List Rtcp) (hd : ∀ p ∈ ps, Dom p) (bs : Bytes)
     (hm : marshalCompound ps = .ok bs) : parseCompound bs = .ok (ps.map canon) := by
   induction ps generalizing bs with
@@ -612,15 +631,6 @@ example : Rtcp.WF (.remb 1 750000 [2, 3]) := ⟨by decide, by decide, 187500, 2,
 example : Rtcp.WF (.rr 7 [⟨1, 2, -8388608, 3, 4, 5, 6⟩, ⟨1, 2, 8388607, 3, 4, 5, 6⟩]) :=
   ⟨by decide, by intro b hb; simp at hb; rcases hb with rfl | rfl <;> decide⟩
 
-/-- **rtcp_marshal_ok_iff** — exactly which logical packets the marshaller serialises (`Encodable`): counts within
-their 5- or 8-bit fields, SDES items of type ≠ END with ≤ 255 bytes, 24-bit TWCC reference time, a non-empty NACK, a
-body within the 16-bit length field. Everything else is an ERROR — after the `fix:` commits of this property no
-input is serialised into a packet that frames differently from what was given (before them, oversize counts, SDES
-text, item type 0, oversize bodies and TWCC reference times were written truncated or masked). Values that fit but
-are lossy on the wire are accepted and `rtcp_marshal_canonical` says what comes back. -/
-theorem rtcp_marshal_ok_iff (p : Rtcp) : (∃ bs, marshalOne p = .ok bs) ↔ Encodable p :=
-  marshalOne_ok_iff p
-
 /-- The naive full statement "whatever the marshaller accepts parses back unchanged" is FALSE — values
 outside the field ranges are saturated / cut / rounded rather than rejected (by design: RFC 3550
 prescribes the loss-count saturation). Witness: a report block with `packets_lost = 2^23`.
@@ -637,6 +647,50 @@ theorem rtcp_marshal_identity_all_witness :
   have h3 : [p] = [p].map canon := by injection h2
   revert h3
   decide
+
+/-- **bye_reason_cut** — what `build_goodbye_body` keeps of a reason (a Rust `String`, i.e. well-formed UTF-8): the
+prefix of `n` bytes where `n ≤ 255`, `n` is a character boundary, NO boundary lies between `n` and `min(len, 255)`
+(so it is the longest such prefix), and the prefix is again well-formed UTF-8 — never a cut inside a multi-byte
+sequence (which `from_utf8_lossy` on the receiving side would turn into U+FFFD). This is the content of the
+`fix:` commit "BYE reason cut at a character boundary". -/
+theorem bye_reason_cut (r : Bytes) (hv : utf8Valid r = true) :
+    let n := byeCut r (min r.length c15ByeMaxReason)
+    n ≤ 255 ∧ n ≤ r.length ∧ isBoundary r n = true ∧
+    (∀ j, n < j → j ≤ min r.length c15ByeMaxReason → isBoundary r j = false) ∧
+    utf8Valid (r.take n) = true ∧ (r.length ≤ 255 → r.take n = r) := by
+  intro n
+  have hle := byeCut_le r (min r.length c15ByeMaxReason)
+  have h255 := c15ByeMaxReason_eq
+  have hb := byeCut_boundary r (min r.length c15ByeMaxReason)
+  refine ⟨by omega, by omega, hb, byeCut_maximal r _, utf8Valid_take _ r rfl hv _ hb, ?_⟩
+  intro hl
+  show r.take (byeCut r (min r.length c15ByeMaxReason)) = r
+  rw [Nat.min_eq_left (by omega), byeCut_full, List.take_length]
+
+/-! ### received RTCP padding (RFC 3550 §6.4.1) -/
+
+/-- **rtcp_padding_stripped**: a received packet of ANY type and format that carries RTCP padding (P bit, filler
+octets of any value, count in the last octet) is handed to its per-type parser without the padding — SR, RR, SDES,
+BYE, NACK, TWCC, PLI, FIR, REMB alike. `Rfc.withPadding` is written from the RFC text, not from the parser. -/
+theorem rtcp_padding_stripped (fmt pt : Nat) (body z rest : Bytes) (hf : fmt < 32) (hpt : pt < 256)
+    (hz : z.length < 255) (hal : (body.length + z.length + 1) % 4 = 0) (hlen : body.length + z.length + 1 < 262144) :
+    parseCompound (Rfc.withPadding fmt pt body z ++ rest) =
+      match parseOne pt fmt body with
+      | .error e => .error e
+      | .ok o =>
+        match parseCompound rest with
+        | .error e => .error e
+        | .ok ps => .ok (match o with | some p => p :: ps | none => ps) :=
+  Rfc.parseCompound_withPadding fmt pt body z rest hf hpt hz hal hlen
+
+/-- **rtcp_padding_transparent**: hence a padded packet anywhere in a compound parses exactly like the same packet
+without padding (whole compound: same result, same error) — in particular a padded NACK or FIR from a peer never
+yields entries read out of the padding. -/
+theorem rtcp_padding_transparent (fmt pt : Nat) (body z rest : Bytes) (hf : fmt < 32) (hpt : pt < 256)
+    (hz : z.length < 255) (hb : body.length % 4 = 0) (hal : (z.length + 1) % 4 = 0)
+    (hlen : body.length + z.length + 1 < 262144) :
+    parseCompound (Rfc.withPadding fmt pt body z ++ rest) = parseCompound (writeRtcp fmt pt body ++ rest) :=
+  Rfc.parseCompound_padding_transparent fmt pt body z rest hf hpt hz hb hal hlen
 
 /-! ### conformance: the serialised bytes, read by the RFC diagrams -/
 
@@ -684,27 +738,77 @@ theorem rfc_layout_remb (s : UInt32) (br : Nat) (ss : List UInt32) (hb : br < 2 
   Rfc.rfc_remb s br ss hb bs h
 
 /-- **rfc_layout_twcc** (draft-holmer-rmcat-transport-wide-cc-extensions §3.1): PT=205, FMT=15, base sequence @12,
-status count @14, 24-bit reference time @16, feedback count @19, chunks/deltas from @20, RTCP padding (P bit and
+status count @14, 24-bit reference time @16 (the counter modulo 2^24), feedback count @19, chunks/deltas from @20, RTCP padding (P bit and
 count octet) when the payload is not 32-bit aligned. -/
 theorem rfc_layout_twcc (s m : UInt32) (b c : UInt16) (r : UInt32) (f : UInt8) (pl : Bytes) (bs : Bytes)
-    (h : marshalOne (.twcc s m b c r f pl) = .ok bs) : Rfc.readTwcc bs = some (.twcc s m b c r f pl) :=
+    (h : marshalOne (.twcc s m b c r f pl) = .ok bs) : Rfc.readTwcc bs = some (canon (.twcc s m b c r f pl)) :=
   Rfc.rfc_twcc s m b c r f pl bs h
+
+/-! ### conformance, parse direction: what an independent implementation serialises -/
+
+/-- **rfc_parse_framing**: a datagram the RFC header reader sees as ONE packet of type `pt` (V=2, P=0, length field =
+the datagram) reaches the per-type parser as: that type, the count/format field, everything behind the 4-octet
+header — and `parse_rtcp_packets` returns exactly what that parser returns (nothing for XR / unknown types). -/
+theorem rfc_parse_framing (bs : Bytes) (pt : Nat) (h : Rfc.framed bs pt) :
+    parseCompound bs =
+      match parseOne pt (Rfc.hdr bs).count (bs.drop 4) with
+      | .error e => .error e
+      | .ok none => .ok []
+      | .ok (some p) => .ok [p] :=
+  Rfc.parseCompound_framed bs pt h
+
+/-- **rfc_parse_sr / rr / pli / fir / twcc** — "the stack parses what an independent implementation serialises": for
+EVERY byte string that the offset-based RFC reader of the type accepts (any field values, any number of report
+blocks / FIR entries, any TWCC payload), `parse_rtcp_packets` returns exactly the packet the reader returns. -/
+theorem rfc_parse_sr (bs : Bytes) (p : Rtcp) (h : Rfc.readSr bs = some p) : parseCompound bs = .ok [p] :=
+  Rfc.parse_of_readSr bs p h
+
+theorem rfc_parse_rr (bs : Bytes) (p : Rtcp) (h : Rfc.readRr bs = some p) : parseCompound bs = .ok [p] :=
+  Rfc.parse_of_readRr bs p h
+
+theorem rfc_parse_pli (bs : Bytes) (p : Rtcp) (h : Rfc.readPli bs = some p) : parseCompound bs = .ok [p] :=
+  Rfc.parse_of_readPli bs p h
+
+theorem rfc_parse_fir (bs : Bytes) (p : Rtcp) (h : Rfc.readFir bs = some p) : parseCompound bs = .ok [p] :=
+  Rfc.parse_of_readFir bs p h
+
+/-- (a TWCC packet WITH RTCP padding reaches the same parser stripped of it: `rtcp_padding_stripped`) -/
+theorem rfc_parse_twcc (bs : Bytes) (p : Rtcp) (hp : (Rfc.hdr bs).padding = false) (h : Rfc.readTwcc bs = some p) :
+    parseCompound bs = .ok [p] :=
+  Rfc.parse_of_readTwcc bs p hp h
+
+/-- **rfc_parse_bye**: the sources the reader sees; the reason octets come back as text (`from_utf8_lossy`) -/
+theorem rfc_parse_bye (bs : Bytes) (ss : List UInt32) (r : Option Bytes) (h : Rfc.readBye bs = some (ss, r)) :
+    parseCompound bs = .ok [.bye ss (r.map lossy)] :=
+  Rfc.parse_of_readBye bs ss r h
+
+/-- **rfc_parse_nack**: a NACK of `sender` for `media` comes back with exactly the sequence numbers its FCI denotes
+(PID and every set BLP bit i as PID+i+1, modulo 2^16) -/
+theorem rfc_parse_nack (bs : Bytes) (s m : UInt32) (h : Rfc.isNack bs s m) :
+    ∃ lost, parseCompound bs = .ok [.nack s m lost] ∧ ∀ x, x ∈ lost ↔ Rfc.nackDenotes bs x :=
+  Rfc.parse_of_isNack bs s m h
+
+/-- **rfc_parse_remb**: mantissa · 2^exp as the RFC reader computes it, whenever it fits the stack's `u64` -/
+theorem rfc_parse_remb (bs : Bytes) (s : UInt32) (br : Nat) (ss : List UInt32) (h : Rfc.readRemb bs = some (.remb s br ss))
+    (hbr : br < 2 ^ 64) : parseCompound bs = .ok [.remb s br ss] :=
+  Rfc.parse_of_readRemb bs s br ss h hbr
 
 /-! ### the other direction: wire → packets → wire -/
 
 /-- **rtcp_semantic_stable**: for EVERY byte string the RTCP parser accepts, if the parsed packets can be serialised
 again, parsing that serialisation yields the canonical form of the parsed packets — nothing but `canon` can happen
 to them (no hypothesis on the input: what the parser returns is always inside `Dom`). When re-serialisation is
-refused is exactly `rtcp_marshal_ok_iff` (e.g. a received NACK without FCI, or ill-formed UTF-8 whose U+FFFD
+refused is exactly lemma `marshalOne_ok_iff` (e.g. a received NACK without FCI, or ill-formed UTF-8 whose U+FFFD
 replacement grows an SDES text beyond 255 bytes). -/
 theorem rtcp_semantic_stable (bs bs' : Bytes) (ps : List Rtcp) (hp : parseCompound bs = .ok ps)
     (hm : marshalCompound ps = .ok bs') : parseCompound bs' = .ok (ps.map canon) :=
   rtcp_marshal_canonical ps (parseCompound_dom bs ps hp) bs' hm
 
-/-- … and for every parsed SR, RR, SDES, PLI, FIR and TWCC packet the canonical form IS the packet (parsed loss
-counts are 24-bit, parsed reference times 24-bit …): only the three lossy fields (NACK order, a BYE reason whose
-lossy decoding grew beyond 255 bytes, a REMB mantissa·2^exp that overflowed 64 bits) can differ after a
-parse → marshal → parse cycle. -/
+/-- **rtcp_parsed_fields_canonical** — what a parse → marshal → parse cycle can change at all (`CanonFixed`): for
+every parsed SR, RR, SDES, PLI, FIR and TWCC packet NOTHING (the canonical form is the packet: parsed loss counts
+and reference times are 24-bit); a parsed NACK keeps its set of sequence numbers (the order becomes the packed
+order); a parsed BYE is unchanged unless the lossy decoding grew the reason beyond 255 bytes; a parsed REMB
+bitrate is `m·2^e mod 2^64` with an 18-bit `m`, 6-bit `e` and is unchanged unless `m·2^e` overflowed 64 bits. -/
 theorem rtcp_parsed_fields_canonical (bs : Bytes) (ps : List Rtcp) (hp : parseCompound bs = .ok ps) :
     ∀ p ∈ ps, CanonFixed p :=
   parseCompound_canonFixed bs ps hp
@@ -757,36 +861,6 @@ sequence number replaces the stored packet) — in every reachable state. -/
 theorem nackbuf_latest (maxSize : Nat) (ops : List BufOp) (s : UInt16) (t : Nat) :
     mapGet ((bufFinal (NackBuf.new maxSize) ops).push s t).packets s = some t :=
   push_get_self (inv_final (inv_new maxSize) ops) s t
-
-/-- **nack_response_rtx**: answering a NACK with RTX enabled wraps the selected stored packets, in order, with
-CONSECUTIVE RTX sequence numbers starting at the handler's counter (wrapping at 2^16), advances the counter by
-the number of packets sent, and resends nothing else; without RTX the packets are resent unchanged and the
-counter does not move. -/
-theorem nack_response_rtx (ctr : UInt16) (xs : List (UInt16 × Nat)) :
-    (respondRtx true ctr xs).1.map (fun e => (e.1, e.2.1)) = xs ∧
-    (∀ (i : Nat) (hi : i < (respondRtx true ctr xs).1.length), ((respondRtx true ctr xs).1[i]).2.2 = some (ctr + UInt16.ofNat i)) ∧
-    (respondRtx true ctr xs).2 = ctr + UInt16.ofNat xs.length ∧
-    (respondRtx false ctr xs).1 = xs.map (fun e => (e.1, e.2, none)) ∧ (respondRtx false ctr xs).2 = ctr := by
-  induction xs generalizing ctr with
-  | nil => simp [respondRtx]
-  | cons x xs ih =>
-    obtain ⟨s, t⟩ := x
-    obtain ⟨h1, h2, h3, h4, h5⟩ := ih (ctr + 1)
-    obtain ⟨_, _, _, g4, g5⟩ := ih ctr
-    simp only [respondRtx, if_true, Bool.false_eq_true, if_false, List.map_cons, List.length_cons]
-    refine ⟨by rw [h1], ?_, ?_, by rw [g4], g5⟩
-    · intro i hi
-      cases i with
-      | zero => simp
-      | succ j =>
-        have := h2 j (by simpa using hi)
-        simp only [List.getElem_cons_succ, this]
-        congr 1
-        apply UInt16.toNat_inj.mp
-        simp [UInt16.toNat_add]; omega
-    · rw [h3]
-      apply UInt16.toNat_inj.mp
-      simp [UInt16.toNat_add]; omega
 
 /-- **nackbuf_fifo**: one send changes the FIFO in exactly one of three ways — nothing (sequence number
 already buffered), append, or append and drop the single OLDEST entry (only when the buffer is full). -/
